@@ -258,7 +258,8 @@ func vfSockFrame(c vfSockCase, id int, level bool, bad bool) ([]byte, []uint16) 
 	pix[at(1, 0)] = uint16(2000 + id%40)
 	pix[at(2, 0)] = uint16(2000 + (id/40)%40)
 	if bad {
-		pix[at(1, 1)] = 0
+		// a zero on the first row inside the edge border (the outermost row when edge-pixels is 0)
+		pix[at(3, 0)] = 0
 	}
 	return vfRawFrame(c.Cam, pix, uint32(60000+111*id), 0, uint32(id)), pix
 }
